@@ -226,6 +226,53 @@ fn pairs_and_pumping(run: &mut Run, oracle: Oracle) {
     run.part("pumping", json!({"events_fed": steps, "single_event_repeats": 700, "patterns": patterns.iter().map(|p| hist_text(p)).collect::<Vec<_>>(), "pattern_steps": ">= 70000 each"}));
 }
 
+/// Debug-fingerprint BFS over every key event + the configuration setters: explores every
+/// state the decoder can be driven into (including state outside the nine flags), checking the
+/// armed oracle on every replayed history.
+fn explore_states(run: &mut Run, oracle: Oracle) {
+    let mut alphabet: Vec<FlatEv> = Vec::new();
+    for &k in ALL_KEYS {
+        for st in KEY_STATES {
+            alphabet.push(FlatEv::Key(k, st));
+        }
+    }
+    alphabet.push(FlatEv::SetMode(HandleControl::MapLettersToUnicode));
+    alphabet.push(FlatEv::SetMode(HandleControl::Ignore));
+    alphabet.push(FlatEv::ChangeLayout(1));
+    let cap = run.tier.pick(12_000usize, 150_000usize);
+    let start = HandleControl::MapLettersToUnicode;
+    let out = crate::explore::bfs(alphabet.len(), cap, 8, |h| {
+        let hist: Vec<FlatEv> = h.iter().map(|i| alphabet[*i as usize]).collect();
+        let fp = guard(|| {
+            let mut kb = Keyboard::new(ScancodeSet2::new(), EncLayout { id: 0 }, start);
+            let mut ed = EventDecoder::new(EncLayout { id: 0 }, start);
+            for f in &hist {
+                match f {
+                    FlatEv::Key(k, s) => {
+                        kb.process_keyevent(KeyEvent::new(*k, *s));
+                        ed.process_keyevent(KeyEvent::new(*k, *s));
+                    }
+                    FlatEv::SetMode(m) => {
+                        kb.set_ctrl_handling(*m);
+                        ed.set_ctrl_handling(*m);
+                    }
+                    FlatEv::ChangeLayout(i) => ed.change_layout(EncLayout { id: *i & 7 }),
+                }
+            }
+            format!("{:?}|{:?}", kb, ed)
+        })?;
+        let dev = history_dev(&hist, start, oracle)?;
+        Ok((fp, dev.is_none()))
+    });
+    run.eval(out.histories_run);
+    run.nontrivial_enum(out.histories_run);
+    for f in &out.failures {
+        let hist: Vec<FlatEv> = f.iter().map(|i| alphabet[*i as usize]).collect();
+        eval_history(run, &hist, start, oracle);
+    }
+    run.part("state_exploration", json!({"alphabet": alphabet.len(), "states_found": out.states, "state_cap": cap, "closed": out.closed, "max_depth": out.max_depth, "histories_replayed": out.histories_run, "events_replayed": out.steps, "failing_histories(sampled)": out.failures.len()}));
+}
+
 fn witness(bits: u16) -> Vec<FlatEv> {
     mm::witness_history(bits).into_iter().map(|(k, s)| FlatEv::Key(k, s)).collect()
 }
@@ -364,20 +411,22 @@ fn random_histories(run: &mut Run, oracle: Oracle, cases: u32, salt: u64) {
 }
 
 pub fn c04(run: &mut Run) {
-    run.rule = "Exhaustive: for each of the 512 modifier records x 2 Ctrl modes a fresh Keyboard is driven there by a canonical witness history (arrival confirmed through get_modifiers), then each of the 124 keys x {Down, Up, SingleShot} is applied and get_modifiers() is compared with a nine-flag reference model written from the property statement; on ordinary presses an argument-encoding layout reveals the modifier record handed to the layout (Keyboard and bare EventDecoder), which must be the same record. All ordered pairs of events from the initial state (372 x 372 x 2 modes) and pumping (every event repeated 700 times, typical patterns repeated for >= 70,000 events) look for state outside the record. Random: event histories (<= 200 ops, typematic repeats of ordinary and modifier keys, 48% on the nine modifier/lock keys, Pause idiom, mode and layout changes) checked after every event, shrunk by proptest. Non-trivial transition = event on a modifier/lock key, or source state with >= 2 flags set besides NumLock (exhaustive: distinct by construction); non-trivial history = contains a Pause idiom or >= 3 distinct modifier keys (distinct by fingerprint).".into();
+    run.rule = "Exhaustive: for each of the 512 modifier records x 2 Ctrl modes a fresh Keyboard is driven there by a canonical witness history (arrival confirmed through get_modifiers), then each of the 124 keys x {Down, Up, SingleShot} is applied and get_modifiers() is compared with a nine-flag reference model written from the property statement; on ordinary presses an argument-encoding layout reveals the modifier record handed to the layout (Keyboard and bare EventDecoder), which must be the same record. State exploration: breadth-first search over every key event and configuration setter, states named by the Debug rendering the crate derives for Keyboard/EventDecoder (so hidden fields steer the search too), every replayed history checked against the model. All ordered pairs of events from the initial state (372 x 372 x 2 modes) and pumping (every event repeated 700 times, typical patterns repeated for >= 70,000 events) look for state outside the record. Random: event histories (<= 200 ops, typematic repeats of ordinary and modifier keys, 48% on the nine modifier/lock keys, Pause idiom, mode and layout changes) checked after every event, shrunk by proptest. Non-trivial transition = event on a modifier/lock key, or source state with >= 2 flags set besides NumLock (exhaustive: distinct by construction); non-trivial history = contains a Pause idiom or >= 3 distinct modifier keys (distinct by fingerprint).".into();
     run.assumptions = vec!["get_modifiers() exposes the complete modifier record, and all 512 values are reached, so the enumerated relation is the complete transition relation of the modifier state; independence from state outside the record is attacked by the random layer".into()];
     exhaustive_transitions(run, Oracle::Mods);
     pairs_and_pumping(run, Oracle::Mods);
+    explore_states(run, Oracle::Mods);
     run.exhaustive = true;
     let n = run.tier.pick(5_000u32, 500_000u32);
     random_histories(run, Oracle::Mods, n, 0xC04);
 }
 
 pub fn c14(run: &mut Run) {
-    run.rule = "Exhaustive: (a) 1024 decoder states (512 modifier records x 2 modes, reached by witness histories) x 124 keys x 3 key states, on Keyboard and on a bare EventDecoder, with an argument-encoding layout whose returned character names the layout object, key, modifier record and mode it was consulted with. Oracle: Up/SingleShot -> None; press of the nine modifier/lock keys -> RawKey(self), NumpadLock with the hidden Pause-Ctrl held -> RawKey(PauseBreak); any other press -> exactly encode(current layout, key, the modifier record defined by the event history, current mode). (b) all sequences of <= 3 configuration changes from {set_ctrl_handling(Map), (Ignore), change_layout(#1), (#2)} between two presses, in 8 modifier states x 3 keys. (c) all ordered pairs of events from the initial state and pumping (>= 70,000-event repetitions); (d) random histories mixing events, typematic repeats and configuration changes. Non-trivial = press in a non-initial modifier state or after a configuration change.".into();
+    run.rule = "Exhaustive: (a) 1024 decoder states (512 modifier records x 2 modes, reached by witness histories) x 124 keys x 3 key states, on Keyboard and on a bare EventDecoder, with an argument-encoding layout whose returned character names the layout object, key, modifier record and mode it was consulted with. Oracle: Up/SingleShot -> None; press of the nine modifier/lock keys -> RawKey(self), NumpadLock with the hidden Pause-Ctrl held -> RawKey(PauseBreak); any other press -> exactly encode(current layout, key, the modifier record defined by the event history, current mode). (b) all sequences of <= 3 configuration changes from {set_ctrl_handling(Map), (Ignore), change_layout(#1), (#2)} between two presses, in 8 modifier states x 3 keys. (c) state exploration (Debug-fingerprint BFS over all events and setters), all ordered pairs of events from the initial state and pumping (>= 70,000-event repetitions); (d) random histories mixing events, typematic repeats and configuration changes. Non-trivial = press in a non-initial modifier state or after a configuration change.".into();
     run.assumptions = vec!["'the current modifier state' is the state defined by the history of modifier events (the C04 reference model); a modifier-tracking defect therefore also shows here whenever it changes what a later press yields".into()];
     exhaustive_transitions(run, Oracle::Output);
     pairs_and_pumping(run, Oracle::Output);
+    explore_states(run, Oracle::Output);
 
     // (b) orderings of configuration changes between two presses
     let changes = [
